@@ -256,8 +256,11 @@ def main(argv=None):
     extra = getattr(mod, "evidence_extra", None)
     if extra:
         ev["coverage"].update(extra(tier))
-    os.makedirs(os.path.join(VERIF, "evidence"), exist_ok=True)
-    with open(os.path.join(VERIF, "evidence", ident + ".json"), "w") as f:
+    # a run against a scratch tree (VERIF_REPO) is not evidence about /repo
+    evdir = os.path.join(VERIF, "evidence") if harness.REPO == os.path.realpath("/repo") \
+        else os.path.join(VERIF, "out", "evidence-scratch")
+    os.makedirs(evdir, exist_ok=True)
+    with open(os.path.join(evdir, ident + ".json"), "w") as f:
         json.dump(ev, f, indent=1, default=str)
 
     # 6. verdict
